@@ -31,6 +31,7 @@ def main():
     ap.add_argument("--src", default="/tmp/wt-out")
     ap.add_argument("--skip-verify", action="store_true")
     ap.add_argument("--tier", default="quick")
+    ap.add_argument("--wt", action="store_true", help="apply the change to a private worktree (VERIF_REPO) instead of /repo, so several seeds can be tried at once")
     a = ap.parse_args()
     name = f"{a.pid}-{a.variant}"
     dst = os.path.join(VERIF, "seeded", name)
@@ -41,7 +42,7 @@ def main():
     demo = os.path.join(src, "demo.py")
     meta_path = os.path.join(dst, "meta.json")
     meta = json.load(open(meta_path)) if os.path.exists(meta_path) else {"property": a.pid, "variant": a.variant}
-    if sh("git -C /repo status --porcelain --untracked-files=no").stdout.strip():
+    if not a.wt and sh("git -C /repo status --porcelain --untracked-files=no").stdout.strip():
         print("refusing: /repo has uncommitted changes")
         return 2
 
@@ -84,14 +85,24 @@ def main():
 
     checks = (a.checks or a.pid).split(",")
     results = meta.setdefault("checks_run", {})
-    r = sh(f"git -C /repo apply {patch}")
+    repo = "/repo"
+    if a.wt:
+        # parallel mode: the change is applied to a private worktree of /repo's HEAD and the checks read it through VERIF_REPO
+        repo = f"/var/tmp/seedwt-{name}"
+        sh(f"git -C /repo worktree remove --force {repo}")
+        sh(f"git -C /repo worktree add --detach {repo} HEAD")
+    r = sh(f"git -C {repo} apply {patch}")
     if r.returncode:
-        print("patch does not apply to /repo:", r.stderr)
+        print(f"patch does not apply to {repo}:", r.stderr)
+        if a.wt:
+            sh(f"git -C /repo worktree remove --force {repo}")
         return 2
     try:
         for c in checks:
             t0 = time.time()
             env = dict(os.environ, VERIF_SEED=os.environ.get("VERIF_SEED", "1"))
+            if a.wt:
+                env["VERIF_REPO"] = repo
             r = subprocess.run(f"./check {c} --tier {a.tier}", shell=True, text=True, capture_output=True, cwd=VERIF, env=env)
             viol = [l for l in r.stdout.splitlines() if l.startswith("VIOLATION")]
             sigs = [l.strip()[:300] for l in r.stdout.splitlines() if l.startswith("  sig=")]
@@ -100,9 +111,13 @@ def main():
             if r.returncode == 2:
                 print(r.stdout[-1500:], r.stderr[-1500:])
     finally:
-        sh("git -C /repo checkout -- .")
-        # replays written while a seeded change was applied are not findings on the real tree
-        sh(f"cd {VERIF} && git checkout -- evidence 2>/dev/null; rm -f replays/*.json")
+        if a.wt:
+            sh(f"git -C /repo worktree remove --force {repo}")
+            shutil.rmtree(repo, ignore_errors=True)
+        else:
+            sh("git -C /repo checkout -- .")
+            # replays written while a seeded change was applied are not findings on the real tree
+            sh(f"cd {VERIF} && git checkout -- evidence 2>/dev/null; rm -f replays/*.json")
     meta["detected_by"] = sorted(k for k, v in results.items() if v["exit"] == 1)
     with open(meta_path, "w") as fh:
         json.dump(meta, fh, indent=1, ensure_ascii=False)
